@@ -10,7 +10,8 @@ COMMENTS = ["# note", "#", "# x = 1", "#!", "# def end class", "   # indented", 
 
 
 # bodies of =begin/=end block comments (0-3 lines each; the number of tokens in a body must not matter)
-BLOCK_BODY = ["p 1", "one", "one two three", "x = 1", "def broken(", "end", "note: a = b", "1 + ", "class Foo", "\"open", "it's", ""]
+BLOCK_BODY = ["p 1", "one", "one two three", "x = 1", "def broken(", "end", "note: a = b", "1 + ", "class Foo", "\"open", "it's", "", "=begin", " =end", "x =end",
+              "<<~EOS", "%w(", "#{", "`", "/re", "?a ? b"]
 
 
 _LIT = re.compile(r"""\"(?:[^\"\\\n]|\\.)*\"|'(?:[^'\\\n]|\\.)*'|\#.*""")
